@@ -1606,6 +1606,13 @@ fn dec_decode(ch: &mut Chooser, ctx: &mut Ctx, obj: &mut dyn DynDecoder, st: &mu
 
     st.clear_round();
     st.rounds += 1;
-    // next round on the same stripe or new data
+    // the next round codes new data (a result that is really the previous round's would otherwise look right)
+    if ch.chance("dec.newdata", 3, 4) {
+        let fam = st.kind.layer.family();
+        match make_stripe(ctx, fam, st.cfg, ch.seed64("data.seed"), ch.weighted("data.mode", &[8, 1, 1]) as u8) {
+            Some(s) => st.stripe = s,
+            None => return true,
+        }
+    }
     false
 }
